@@ -76,4 +76,5 @@ func waterKernelStage(c *vh.Ctx, n int, balance, bounds bool) {
 func checkC01(c *vh.Ctx) {
 	c.Res.Rule = "kernel: generated states of hermes.Water (1-20 layers, all three surface-flux branches, drains, groundwater, states above field capacity / below wilting point / exact ties, 1-93 sub-steps); non-trivial = distinct generated state. whole runs: see extra"
 	waterKernelStage(c, c.N(4000, 60000), true, false)
+	waterRunStage(c, c.N(48, 800))
 }
